@@ -521,9 +521,17 @@ def run_C08(ctx):
                         continue
                     first.append(gen.raw_line(alg, a, b, stack=st, dl=dl))
                     meta.append((alg, a, b, st, dl))
+    # one long-lived Replace adapter used for the same diff twice (after finish it must be as good as new)
+    for a, b in pairs:
+        for alg in ALGS:
+            first.append(gen.raw_line(alg, a, b, stack="replace_twice"))
+            meta.append((alg, a, b, "replace_twice", None))
+            ctx.count("raw:adapter-reused-for-a-second-diff")
     impl, _, _ = C.evaluate(ctx, "raw-stacks-unfailed", first, rel)
     lines = []
     for (alg, a, b, st, dl), im in zip(meta, impl):
+        if st == "replace_twice":
+            continue
         calls = im.split(" ")[0].split("=", 1)[1] if im.startswith("calls=") else "-"
         ncalls = 0 if calls == "-" else len(calls.split(","))
         ks = range(0, ncalls + 1) if ncalls <= 12 else sorted({0, 1, ncalls - 1, ncalls} | {ctx.rng.randrange(ncalls) for _ in range(6)})
@@ -572,10 +580,11 @@ SPECS["C08"] = dict(
         technique='Coq proof of the transducer structure + exhaustive fault injection at every hook call index on the real code',
     ),
     relevant=lambda comp, kv: {"no_panic", "no_error", "abort", "finish_last", "nofinish_no_fin", "no_rep",
-                               "forwards_unchanged", "ops_exact", "alternating"},
+                               "forwards_unchanged", "ops_exact", "alternating", "twice_same"},
     run=run_C08,
-    generators="raw component over 3 algorithms x 8 hook stacks (recording hook, &mut, NoFinishHook, Replace over a hook "
-               "with / without its own replace, Replace over NoFinishHook, Compact, Compact+Replace) on every binary pair up to length 3/4 and "
+    generators="raw component over 3 algorithms x 10 hook stacks (recording hook, &mut, NoFinishHook, Replace over a hook "
+               "with / without its own replace, Replace over NoFinishHook, Compact, Compact+Replace, Replace over Compact, "
+               "one Replace adapter used for the same diff twice) on every binary pair up to length 3/4 and "
                "random pairs up to 25, without deadline and with the virtual clock expiring at probe 0, 1 and 2: the unfailed "
                "run, then the recording hook failing at every call index k; "
                "adapter component: every valid script of binary pairs up to length 2 through the adapter stacks, "
@@ -670,7 +679,8 @@ def adapter_world(ctx, stacks):
 def run_C10(ctx):
     rel = SPECS["C10"]["relevant"]
     C.evaluate(ctx, "corpus", corpus_lines({"adapter"}), rel)
-    lines = adapter_world(ctx, ["compact", "replace", "compact_replace"])
+    # replace_twice: one Replace adapter fed the same script twice (both halves of the log must agree)
+    lines = adapter_world(ctx, ["compact", "replace", "compact_replace", "replace_twice"])
     C.evaluate(ctx, "adapter-release", lines, rel, dbg=False)
     C.evaluate(ctx, "adapter-debug", lines, rel, dbg=True)
 
@@ -683,7 +693,7 @@ SPECS["C10"] = dict(
         technique='Coq proof (12 zipper rewrite arms, termination measures, Replace state invariant) + correspondence on all valid scripts of small pairs + verified checker',
     ),
     need_debug=True,
-    relevant=lambda comp, kv: {"no_panic", "no_error", "finish_last", "ops_loose", "cost_kept", "normal", "ops_exact"},
+    relevant=lambda comp, kv: {"no_panic", "no_error", "finish_last", "ops_loose", "cost_kept", "normal", "ops_exact", "twice_same"},
     run=run_C10,
     generators="adapter component: every valid script (all ways of splitting and interleaving delete/insert runs and "
                "equal segments) of every binary pair up to length 3/4 and ternary pair up to 2, plus random scripts of "
@@ -839,6 +849,25 @@ def run_C13(ctx):
             sub = ops[h:] + ops[:h]
         lines.append("iter ops=%s old=%s new=%s" % (gen.fmt_calls(sub), gen.fmt_list(o), gen.fmt_list(nw)))
         ctx.count("iter:non-contiguous-op-list")
+    # op lists with zero-length ops, also several in a row and at both ends (joined radius-0 groups of
+    # grouped_ops look like this)
+    for _ in range(tiered(ctx, 1500, 15000)):
+        ops = gen.random_alternating(ctx.rng, ctx.rng.randrange(0, 4))
+        tot_o = sum(c[3] if c[0] == "E" else c[2] if c[0] in "DR" else 0 for c in ops)
+        tot_n = sum(c[3] if c[0] in "EI" else c[4] if c[0] == "R" else 0 for c in ops)
+        o = [ctx.rng.randrange(1000) for _ in range(tot_o)]
+        nw = [1000 + ctx.rng.randrange(1000) for _ in range(tot_n)]
+        sub = list(ops)
+        for _j in range(ctx.rng.randrange(1, 4)):
+            at = ctx.rng.randrange(len(sub) + 1)
+            run = []
+            for _k in range(ctx.rng.choice([1, 2, 2, 3])):
+                po, pn = ctx.rng.randrange(tot_o + 1), ctx.rng.randrange(tot_n + 1)
+                t = ctx.rng.choice("EDIR")
+                run.append({"E": ("E", po, pn, 0), "D": ("D", po, 0, pn), "I": ("I", po, pn, 0), "R": ("R", po, 0, pn, 0)}[t])
+            sub[at:at] = run
+        lines.append("iter ops=%s old=%s new=%s" % (gen.fmt_calls(sub), gen.fmt_list(o), gen.fmt_list(nw)))
+        ctx.count("iter:zero-length-ops-in-a-row")
     C.evaluate(ctx, "iter", lines, rel, nontrivial=lambda comp, kv, impl: "changes=-" not in impl)
 
 
@@ -955,6 +984,24 @@ def run_C06(ctx):
         for pat in (b"a%sb", b" %s ", b"%s", b"a%s", b"%sa", b"\n%s\n", b"a %s b", b"%s" + ch):
             texts.append(pat.replace(b"%s", ch))
     ctx.count("tok:every-whitespace-code-point-in-context", len(cps) * 8)
+    # long lines and words: a terminator / a blank at every distance 0..71 (and around 128, 256) from the start of
+    # its line, so that it falls at every position of whatever block size a scanning loop might use
+    nlong = 0
+    for L in list(range(0, 72)) + [127, 128, 129, 255, 256, 257]:
+        fills = [b"a" * L, (b"ab\xc3\xa9" * L)[:L] if L % 4 != 3 else b"b" * L]
+        for fill in fills:
+            try:
+                fill.decode("utf-8")
+            except UnicodeDecodeError:
+                fill = b"c" * L
+            for term in (b"\r", b"\n", b"\r\n", b" ", b"\t"):
+                for tail in (b"", b"x", b"\n", b"x" * 40 + b"\r" + b"y" * 3 + b"\n"):
+                    texts.append(fill + term + tail)
+                    nlong += 1
+            if L % 8 == 0:
+                texts.append(b"q\n" + fill + b"\r" + fill + b"\r\n" + fill)
+                nlong += 1
+    ctx.count("tok:terminator-at-every-offset-of-long-lines", nlong)
     for t in texts:
         for k in TOKS_MODEL:
             pairs_idx.append(len(lines))
@@ -1619,6 +1666,28 @@ def run_C15(ctx):
         lines.append(gen.raw_line("P", a, b, r))
         lines.append(gen.capture_line("P", a, b, r))
         ctx.count("patience:random", 2)
+    # runs of three consecutive anchors A .. M .. B with short stretches of two repeated items between them, every
+    # combination on both sides (an interior anchor that is "equally far" on both sides must still be a split point)
+    import itertools
+    stretches = [list(t) for k in range(0, 3) for t in itertools.product([1, 2], repeat=k)]
+    fam = []
+    for s1 in stretches:
+        for s2 in stretches:
+            for t1 in stretches:
+                for t2 in stretches:
+                    fam.append(([7] + s1 + [8] + s2 + [9], [7] + t1 + [8] + t2 + [9]))
+    # and with the repeated item recurring behind the last anchor / in front of the first
+    for s1, s2, t1, t2 in [ctx.rng.sample(stretches, 4) + [] for _ in range(tiered(ctx, 300, 3000))]:
+        ex = [ctx.rng.choice([1, 2]) for _ in range(ctx.rng.randrange(1, 3))]
+        fam.append(([7] + s1 + [8] + s2 + [9], [7] + t1 + [8] + t2 + ex + [9]))
+        fam.append((ex + [7] + s1 + [8] + s2 + [9], [7] + t1 + [8] + t2 + [9] + ex))
+    if ctx.tier == "quick":
+        ctx.rng.shuffle(fam)
+        fam = fam[:1500]
+    for a, b in fam:
+        lines.append(gen.raw_line("P", a, b))
+        lines.append(gen.capture_line("P", a, b))
+        ctx.count("patience:three-anchors-with-repeated-stretches", 2)
     C.evaluate(ctx, "corpus", corpus_lines({"raw", "capture"}), rel)
     C.evaluate(ctx, "patience", lines, rel)
     # many unique items whose anchors come in particular ORDERS: reversed (longest chain 1), zig-zag, nearly sorted
